@@ -35,7 +35,7 @@ import (
 type Identifier struct {
 	// We declare a Identifier not as a string but as a struct wrapping a string
 	// to prevent construction of Identifier values through string conversion.
-	str string
+	identifier string
 }
 
 // To minimize the risk of parsing errors, Identifier values must start with an
@@ -79,5 +79,5 @@ func IdentifierFromConstantPrefix(prefix stringConstant, value string) Identifie
 
 // String returns the string form of the Identifier.
 func (i Identifier) String() string {
-	return i.str
+	return i.identifier
 }
